@@ -398,6 +398,18 @@ class PseudoNetCDFFile(PseudoNetCDFSelfReg, object):
             ])
 
         timeunits = self.variables[timekey].units.strip()
+        if ' since ' in timeunits:
+            # use the reference instant getTimes uses (netCDF4 ignores,
+            # e.g., an hour given without minutes)
+            from PseudoNetCDF.coordutil import _parse_ref_date
+            unit, base = timeunits.split(' since ')
+            try:
+                refdate = _parse_ref_date(base)
+                timeunits = '%s since %s' % (
+                    unit,
+                    refdate.astimezone(utc).strftime('%Y-%m-%d %H:%M:%S'))
+            except Exception:
+                pass
         calendar = getattr(self.variables[timekey], 'calendar', 'standard')
         num = date2num(time, timeunits, calendar.strip())
         return num
